@@ -308,11 +308,38 @@ func (b *Built) Run(ctx *parsley.Context, p parsley.Parser, pos parsley.Pos) (o 
 	return
 }
 
-// NewContext makes a context for input w placed alone in a file set (base offset 1).
+// Placement selects where the file under test sits when NewContext builds its file set; Base is the base offset
+// of the file of the most recent NewContext (positions are rendered relative to it). Both are plain package
+// variables: the explorer workers are single-threaded.
+//
+//	0: the file alone (base offset 1)
+//	1: second file of the set, after a 3-byte file; reader created after the file was added
+//	2: second file of the set, after a 3-byte file; reader created BEFORE the file is added (the order
+//	   examples/json/json/parser_test.go uses): anything the reader copied from the file at construction is stale
+var (
+	Placement int
+	Base      = 1
+)
+
+// NewContext makes a context for input w according to Placement.
 func NewContext(w []byte) (*parsley.Context, *text.Reader, *text.File) {
 	f := text.NewFile("f", w)
+	switch Placement {
+	case 1:
+		fs := parsley.NewFileSet(text.NewFile("pre", []byte("xyz")), f)
+		r := text.NewReader(f)
+		Base = int(r.Pos(0))
+		return parsley.NewContext(fs, r), r, f
+	case 2:
+		r := text.NewReader(f)
+		fs := parsley.NewFileSet(text.NewFile("pre", []byte("xyz")))
+		fs.AddFile(f)
+		Base = int(r.Pos(0))
+		return parsley.NewContext(fs, r), r, f
+	}
 	fs := parsley.NewFileSet(f)
 	r := text.NewReader(f)
+	Base = 1
 	return parsley.NewContext(fs, r), r, f
 }
 
